@@ -235,6 +235,13 @@ def evalCase (s : S) (d : Doc) : IO Unit := do
     else
       fields := "lit=viol" :: fields
       extra := s!"LITDIFF good={tw.good} doc={oneLine tw.lits} tree={oneLine (specLit (prepare t))}" :: extra
+    -- route M: a document of the covered fragment is certified by theorem (routeM_document); the
+    -- evaluated certificates must agree
+    let pt := prepare t
+    if pt.kind == .markup && inFrag pt then
+      let all := tokensCertified t tw && commentsCertified t tw && verbatimCertified t tw && proseCertified t tw && literalsCertified t tw
+      fields := (if all then "rm=in" else "rm=viol") :: fields
+    else fields := "rm=out" :: fields
     if let some c := s.cnt then
       fields := (if c == calls then "count=eq" else s!"count=diff:{calls}:{c}") :: fields
     let me := m.erase
